@@ -138,7 +138,7 @@ theorem struct_cycle (sc : Scripts) (w : World) (hs : Safe w) :
   have hb : structStep (structStep {} (Ev.begin (w.cycle + 1))) (Ev.poll (w.cycle + 1) (!hasPending w)) =
       { cyc := some (w.cycle + 1), served := [], bad := [] } := rfl
   rw [hb, hio]
-  obtain ⟨c1, c2⟩ := struct_cmdLoop sc (connectedUsers w + 1) (cmdPhaseStart w) h1
+  obtain ⟨c1, c2⟩ := struct_cmdLoop sc (NV.Gen.C12.loopCalls (connectedUsers w) w.maxUsers) (cmdPhaseStart w) h1
     { cyc := some (w.cycle + 1), served := [], bad := [] } (w.cycle + 1) rfl (by intro u hu; cases hu)
   unfold cmdPhaseStart at c1 c2
   simp only [structStep, c1, c2]
